@@ -497,6 +497,15 @@ cgsitrf(superlu_options_t *options, SuperMatrix *A, int relax, int panel_size,
 			if (error) { *info = error; return; }
 			lsub = Glu->lsub;
 		    }
+		    {
+			int_t nzlumax = Glu->nzlumax;
+			while (xlusup[jj] + 1 > nzlumax) {
+			    int error = cLUMemXpand(jj, xlusup[jj], LUSUP,
+						     &nzlumax, Glu);
+			    if (error) { *info = error; return; }
+			    lsub = Glu->lsub; /* moves with lusup in work[] */
+			}
+		    }
 		    xlsub[jj + 1]++;
 		    assert(xlusup[jj]==xlusup[jj+1]);
 		    xlusup[jj + 1]++;
